@@ -111,9 +111,9 @@ func c29NewEnv(t *testing.T) *c29Env {
 	if d, err := os.MkdirTemp("/dev/shm", "c29-sqlite-"); err == nil {
 		e.sqlDir = d
 	}
-	// source measurement: one row per second, [T0-3h, T0+60h)
+	// source measurement: one row per second, [T0-3h, T0+240h)
 	e.srcLo = c29T0.Add(-3 * time.Hour).Unix()
-	e.srcHi = c29T0.Add(60 * time.Hour).Unix()
+	e.srcHi = c29T0.Add(240 * time.Hour).Unix()
 	dir := filepath.Join(store.GetBasePath(), c29DB, c29Src, "2026", "01", "01", "00")
 	if err := os.MkdirAll(dir, 0o755); err != nil {
 		t.Fatalf("mkdir: %v", err)
@@ -414,7 +414,18 @@ func (s *c29Sys) execute(t c29TB, m *c29Model, scheduled, dry bool, startArg, en
 	var gotStatus, gotStart, gotEnd string
 	var gotWritten int64 = -1
 	if scheduled {
-		resp, err := s.h.ExecuteCQ(context.Background(), s.id)
+		// what the scheduler hands to ExecuteCQ: a context that its Stop/Reload
+		// (job.stopCh) cancels and that carries a 10-minute deadline
+		ctx, cancel := context.Background(), context.CancelFunc(func() {})
+		switch fault {
+		case "ctx-cancelled":
+			ctx, cancel = context.WithCancel(ctx)
+			cancel()
+		case "ctx-deadline":
+			ctx, cancel = context.WithDeadline(ctx, time.Unix(1, 0))
+		}
+		resp, err := s.h.ExecuteCQ(ctx, s.id)
+		cancel()
 		if err != nil {
 			gotStatus = "error: " + err.Error()
 		} else {
@@ -443,7 +454,7 @@ func (s *c29Sys) execute(t c29TB, m *c29Model, scheduled, dry bool, startArg, en
 	s.disarmFault(t)
 	isErr := strings.HasPrefix(gotStatus, "error")
 	if fault != "" && (want == "completed" || want == "failed" || (want == "empty-window" && !dry)) {
-		s.afterFault(t, m, step, fault, rowsBefore, start, end, explicit)
+		s.afterFault(t, m, step, fault, rowsBefore, start, end, explicit, isErr, gotWritten)
 		return
 	}
 	if want == "empty-window" {
@@ -508,9 +519,9 @@ func (s *c29Sys) execute(t c29TB, m *c29Model, scheduled, dry bool, startArg, en
 // `completed` record with a stale pointer makes the next run overlap it; an
 // advanced pointer without the record is an unrecorded window. A failed
 // execution never moves the pointer and never leaves a `completed` record.
-func (s *c29Sys) afterFault(t c29TB, m *c29Model, step c29Step, fault string, rowsBefore int, start, end time.Time, explicit bool) {
+func (s *c29Sys) afterFault(t c29TB, m *c29Model, step c29Step, fault string, rowsBefore int, start, end time.Time, explicit bool, isErr bool, gotWritten int64) {
 	after := step.Op + " @" + step.Now + " " + step.Detail
-	verifkit.Class("meta-fault:" + fault)
+	verifkit.Class("fault:" + fault)
 	rows := s.execRows(t)
 	if len(rows) < rowsBefore || len(rows) > rowsBefore+1 {
 		m.fail(t, "executions-count", "after %s: executions table went from %d to %d rows", after, rowsBefore, len(rows))
@@ -553,6 +564,17 @@ func (s *c29Sys) afterFault(t c29TB, m *c29Model, step c29Step, fault string, ro
 			m.execs = append(m.execs, ex)
 		}
 	case completedRow && moved:
+		// it counts: then it must really have processed its window (checked again
+		// against the destination at the end of the history)
+		if !isErr {
+			wantWritten := int64(1)
+			if s.query == c29QMinute {
+				wantWritten = c29MinutesTouched(s.env, start.Unix(), end.Unix())
+			}
+			if gotWritten != wantWritten {
+				m.fail(t, "records-written", "after %s: window [%s, %s) recorded as completed and the pointer advanced, but records_written=%d, expected %d", after, c29Fmt(start.Unix()), c29Fmt(end.Unix()), gotWritten, wantWritten)
+			}
+		}
 		ex.Status = "completed"
 		m.execs = append(m.execs, ex)
 		e := end.Unix()
@@ -747,7 +769,7 @@ func c29History(rt *rapid.T, env *c29Env) {
 	for i := 0; i < steps; i++ {
 		op := rapid.SampledFrom([]string{"tick", "tick", "tick", "sched", "sched", "tick-sched", "tick-sched", "tick-sched", "fail-sched", "fail-sched",
 			"manual", "manual-dry", "manual-explicit", "break", "repair", "repair", "restart", "restart", "interval", "inactive-try",
-			"meta-fault", "meta-fault", "meta-fault"}).Draw(rt, "op")
+			"meta-fault", "meta-fault", "meta-fault", "ctx-fault", "ctx-fault", "long-gap"}).Draw(rt, "op")
 		// shape of the open finding: a window whose start carries a sub-second part
 		// (initial look-back = now-1h while the clock is between two seconds)
 		snap := func() {
@@ -849,6 +871,28 @@ func c29History(rt *rapid.T, env *c29Env) {
 				m.steps = append(m.steps, c29Step{Op: "restart", Now: m.now.Format(time.RFC3339Nano)})
 				sys.checkState(rt, m, "restart")
 			}
+		case "ctx-fault": // the scheduler stops/reloads the job, or its deadline fires: ExecuteCQ gets a dead context
+			tick()
+			snap()
+			sys.fault = rapid.SampledFrom([]string{"ctx-cancelled", "ctx-cancelled", "ctx-deadline"}).Draw(rt, "ctxfault")
+			sys.execute(rt, m, true, false, nil, nil)
+			sys.disarmFault(rt)
+		case "long-gap": // node down / CQ paused / unlicensed for more than a day, then a scheduled tick
+			d := rapid.SampledFrom([]time.Duration{25 * time.Hour, 30 * time.Hour, 72 * time.Hour}).Draw(rt, "gap")
+			paused := rapid.Bool().Draw(rt, "gappaused")
+			if paused {
+				m.active = false
+				update("deactivate")
+			}
+			m.now = m.now.Add(d)
+			VerifSetClock(m.now)
+			m.steps = append(m.steps, c29Step{Op: "tick", Detail: d.String(), Now: m.now.Format(time.RFC3339Nano)})
+			if paused {
+				m.active = true
+				update("activate")
+			}
+			snap()
+			sys.execute(rt, m, true, false, nil, nil)
 		case "inactive-try": // deactivate, attempt an execution (must be refused), reactivate
 			m.active = false
 			update("deactivate")
